@@ -53,7 +53,7 @@ def gro_line(resid, resname, name, atomid, pos, vel=None, dec=3):
 
 def write_gro(path, records, box=(10.0, 10.0, 10.0), title="generated", dec=3):
     """records: list of (resid, resname, atomname, atomid, pos(3), vel(3) or None)."""
-    with open(path, "w") as f:
+    with open(path, "w", encoding="utf-8") as f:
         f.write(title + "\n%5d\n" % len(records))
         for r in records:
             f.write(gro_line(r[0], r[1], r[2], r[3], r[4], r[5] if len(r) > 5 else None, dec) + "\n")
